@@ -141,6 +141,10 @@ def _eliminate_derived_table(
         # of a DML statement or a parenthesized DDL source, not one of its derived tables
         return None
 
+    if any(column.table for column in scope.external_columns):
+        # A derived table that references columns of an enclosing query can't be moved out of it
+        return None
+
     # Get rid of redundant exp.Subquery expressions, i.e. those that are just used as wrappers
     to_replace = expr_parent.unwrap()
     name, cte = _new_cte(scope, existing_ctes, taken)
